@@ -2,6 +2,12 @@
 
 package tabula
 
+import (
+	"github.com/tsawler/tabula/core"
+	"github.com/tsawler/tabula/pages"
+	"github.com/tsawler/tabula/text"
+)
+
 // Add-only exports for the verification harness (built only with -tags verif).
 
 // VerifValidateFormat exposes (*Extractor).validateFormat, the content-vs-extension
@@ -38,4 +44,34 @@ func (e *Extractor) VerifState() VerifExtractorState {
 		ReaderOpened:   e.readerOpened,
 		HasReader:      e.reader != nil,
 	}
+}
+
+// ---- C09: text assembly paths ------------------------------------------------------
+
+// verifPage builds a page object that only knows its /MediaBox.
+func verifPage(width, height float64) *pages.Page {
+	return pages.NewPage(core.Dict{
+		"Type":     core.Name("Page"),
+		"MediaBox": core.Array{core.Real(0), core.Real(0), core.Real(width), core.Real(height)},
+	}, nil, nil)
+}
+
+// VerifAssembleText exposes (*Extractor).assembleText.
+func VerifAssembleText(fragments []text.TextFragment) string {
+	return (&Extractor{}).assembleText(fragments)
+}
+
+// VerifExtractPreserveLayout exposes (*Extractor).extractPreserveLayout.
+func VerifExtractPreserveLayout(fragments []text.TextFragment, pageWidth float64) string {
+	return (&Extractor{}).extractPreserveLayout(fragments, pageWidth)
+}
+
+// VerifExtractByColumn exposes (*Extractor).extractByColumn on a page of the given size.
+func VerifExtractByColumn(fragments []text.TextFragment, width, height float64) string {
+	return (&Extractor{}).extractByColumn(fragments, verifPage(width, height))
+}
+
+// VerifExtractWithParagraphs exposes (*Extractor).extractWithParagraphs on a page of the given size.
+func VerifExtractWithParagraphs(fragments []text.TextFragment, width, height float64) string {
+	return (&Extractor{}).extractWithParagraphs(fragments, verifPage(width, height))
 }
